@@ -27,8 +27,8 @@ int main(int argc, char** argv)
         o << " ...+" << c.ops.size() - 12;
         break;
       }
-      static char const* names[] = {"FORMAT", "WRITE", "RESTART", "FOREIGN"};
-      o << " " << names[op.k & 3] << "(" << op.a << (op.k == O_WRITE || op.k == O_RESTART ? "," + std::to_string(op.b) : std::string{}) << ")";
+      static char const* names[] = {"FORMAT", "WRITE", "RESTART", "FOREIGN", "REMOVE_ACTIVE"};
+      o << " " << names[op.k < 5 ? op.k : 0] << "(" << op.a << (op.k == O_WRITE || op.k == O_RESTART ? "," + std::to_string(op.b) : std::string{}) << ")";
     }
     o << " ]";
     return o.str();
